@@ -20,6 +20,10 @@
 // armed, so nothing can ever wake the writer. Anything else after the last stage =>
 // inconclusive. The watchdog only decides *when to look*.
 //
+// The same rule covers a writer parked inside (*ProgressWriter).Close in anything but a send
+// (Close waiting in its send for a receiver is by design) while the consumer is parked receiving.
+// Lifetime batches (life.go) sweep the alignment of the consumer's first receive against Close.
+//
 // "Long" scenarios (tens of thousands of 1..16 byte writes next to an eager consumer on >= 2 Ps)
 // exist to hit narrow writer/consumer windows; they are stored compactly (LongN, LongSeed).
 //
@@ -97,6 +101,8 @@ type Case struct {
 	// Long scenario: Ops is empty and stands for LongN writes of 1..16 bytes derived from LongSeed.
 	LongN    int   `json:"long_n,omitempty"`
 	LongSeed int64 `json:"long_seed,omitempty"`
+	// Lifetime batch (life.go): everything else is empty.
+	Life *LifeSpec `json:"life,omitempty"`
 }
 
 // expand returns the case with the op list of a long scenario materialised.
@@ -507,7 +513,7 @@ func (s *scen) observe() (r rest, wstate, wblock string) {
 		return r, "", ""
 	}
 	wstate, wblock = state, block
-	if c1 != c2 || p1 != p2 || no1 != no2 || why1 != why2 || int(p1) >= len(s.cs.Ops) || !parked(state) {
+	if c1 != c2 || p1 != p2 || no1 != no2 || why1 != why2 || !parked(state) {
 		return
 	}
 	fn, wframes := site(block)
@@ -515,8 +521,20 @@ func (s *scen) observe() (r rest, wstate, wblock string) {
 		return
 	}
 	frame := strings.TrimPrefix(fn, pwPrefix)
-	if frame != "sum" && frame != "Write" && frame != "WriteString" {
-		return // Close blocks by design
+	switch frame {
+	case "sum", "Write", "WriteString":
+		if int(p1) >= len(s.cs.Ops) {
+			return
+		}
+	case "Close":
+		// Close parked in its send while nobody receives is by design. Close parked in anything
+		// but a send (a receive, a select, a lock) while the consumer is itself parked receiving
+		// on the status channel is at rest for ever: the total is never delivered.
+		if strings.HasPrefix(state, "chan send") || no1 {
+			return
+		}
+	default:
+		return
 	}
 	why, cframes := why1, ""
 	if !no1 {
@@ -571,7 +589,12 @@ func (s *scen) awaitWriter(st *stats) (res result, joined bool) {
 			st.snapshots++
 			b, _, _ := s.observe()
 			if b.ok && a.sig == b.sig {
-				op := s.cs.Ops[a.progress]
+				op := Op{}
+				meth := "Close"
+				if int(a.progress) < len(s.cs.Ops) {
+					op = s.cs.Ops[a.progress]
+					meth = op.method()
+				}
 				obs := fmt.Sprintf("two identical consecutive snapshots: writer goroutine parked in [%s] inside (*ProgressWriter).%s at op %d of %d, consumer %s; nobody can ever wake it:\n%s",
 					a.wstate, a.frame, a.progress, len(s.cs.Ops), a.why, clipStr(a.wblock, 1500))
 				s.stuckRecv = !strings.HasPrefix(a.wstate, "chan send")
@@ -579,8 +602,8 @@ func (s *scen) awaitWriter(st *stats) (res result, joined bool) {
 					obs += "\nconsumer:\n" + clipStr(a.cblock, 800)
 				}
 				return result{
-					key: fmt.Sprintf("blocked-in-%s:%s:consumer-%s", a.frame, op.method(), a.why),
-					exp: fmt.Sprintf("op %d %s(%d bytes) returns whatever the consumer does (consumer %s)", a.progress, op.method(), op.Size, a.why),
+					key: fmt.Sprintf("blocked-in-%s:%s:consumer-%s", a.frame, meth, a.why),
+					exp: fmt.Sprintf("op %d %s(%d bytes) returns whatever the consumer does (consumer %s)", a.progress, meth, op.Size, a.why),
 					obs: obs,
 				}, false
 			}
@@ -946,7 +969,7 @@ type mon struct{}
 func (mon) Name() string { return "progress" }
 
 func (mon) Level(string) (string, string) {
-	return "exploration", "seeded random scenarios {wrapped writer kind full/shortErr/shortNil/fail0/failN/mixed × io.StringWriter or not} × {op list of Write/WriteString, sizes 0/1/7/4096/1MiB and random, ≤ 50 ops} × {consumer absent until Close, eager, slow, late start, stops-then-resumes}, run as real goroutines at GOMAXPROCS 1/2/4/16 plain and under -race; oracle offline over the writer log (n, err, Size(), Σn of the wrapped writer) and the consumer log; non-blocking decided from a goroutine snapshot, never from time; distinct_nontrivial = distinct scenario shapes (writer kind, ops with method/size/behaviour, consumer script) with at least one op and a non-zero total"
+	return "exploration", "seeded random scenarios {wrapped writer kind full/shortErr/shortNil/fail0/failN/mixed × io.StringWriter or not} × {op list of Write/WriteString, sizes 0/1/7/4096/1MiB and random, ≤ 50 ops} × {consumer absent until Close, eager, slow, late start, stops-then-resumes}, run as real goroutines at GOMAXPROCS 1/2/4/16 plain and under -race; oracle offline over the writer log (n, err, Size(), Σn of the wrapped writer) and the consumer log; non-blocking decided from a goroutine snapshot, never from time; plus long scenarios (20000..100000 writes of 1..16 bytes next to an eager consumer) and lifetime batches (one or two small writes then Close, consumer busy during the last write, its first receive aligned with Close by a spin barrier with seeded offsets on either side); Write/Close never returning is decided from two identical consecutive goroutine snapshots of an at-rest state; distinct_nontrivial = distinct scenario shapes (writer kind, ops with method/size/behaviour, consumer script) with at least one op and a non-zero total"
 }
 
 func (mon) Assumptions(string) []string {
@@ -964,6 +987,7 @@ type shardArgs struct {
 	Count   int  `json:"count"`
 	Workers int  `json:"workers"`
 	Long    bool `json:"long,omitempty"` // long scenarios: 20000..100000 tiny writes, eager consumer
+	Life    bool `json:"life,omitempty"` // lifetime batch: Workers pairs x Count lifetimes each
 }
 
 var procsCycle = []int{1, 2, 4, 16}
@@ -1003,6 +1027,22 @@ func (mon) Plan(prop, tier string, seed int64) []drv.Shard {
 	{
 		a, _ := json.Marshal(shardArgs{Part: 3000, Count: longPer / 2, Workers: 1, Long: true})
 		out = append(out, drv.Shard{Name: "long-race-p4-w1", Args: a, Secs: secs, Race: true, Env: []string{"GOMAXPROCS=4"}})
+	}
+	// lifetime batches: GOMAXPROCS >= 2, 1..4 concurrent pairs
+	lifeShards, lifePer := 4, 30000
+	if tier == "thorough" {
+		lifeShards, lifePer = 8, 300000
+	}
+	for p := 0; p < lifeShards; p++ {
+		procs := []int{2, 4, 16, 8, 4, 16, 2, 8}[p%8]
+		pairs := []int{1, 2, 4, 2, 1, 2, 1, 4}[p%8]
+		a, _ := json.Marshal(shardArgs{Part: 4000 + p, Count: lifePer / pairs, Workers: pairs, Life: true})
+		out = append(out, drv.Shard{Name: fmt.Sprintf("life-%d-p%d-w%d", p, procs, pairs), Args: a, Secs: secs,
+			Env: []string{fmt.Sprintf("GOMAXPROCS=%d", procs)}})
+	}
+	{
+		a, _ := json.Marshal(shardArgs{Part: 5000, Count: lifePer / 20, Workers: 1, Life: true})
+		out = append(out, drv.Shard{Name: "life-race-p4-w1", Args: a, Secs: secs, Race: true, Env: []string{"GOMAXPROCS=4"}})
 	}
 	for p := 0; p < racen; p++ {
 		procs := []int{4, 2, 16, 1}[p%4]
@@ -1046,6 +1086,10 @@ func (mn mon) Run(sh drv.Shard, c *drv.Ctx) {
 		a.Workers = 1
 	}
 	procs := runtime.GOMAXPROCS(0)
+	if a.Life {
+		runLifeShard(sh, a, c, procs)
+		return
+	}
 	var stop atomic.Bool
 	var wg sync.WaitGroup
 	all := make([]*stats, a.Workers)
@@ -1138,16 +1182,66 @@ func (mn mon) Run(sh drv.Shard, c *drv.Ctx) {
 	c.SetAdd("gomaxprocs", strconv.Itoa(procs))
 }
 
+func runLifeShard(sh drv.Shard, a shardArgs, c *drv.Ctx, procs int) {
+	spec := LifeSpec{Seed: sh.Seed*1000003 + int64(a.Part), Pairs: a.Workers, N: a.Count}
+	cs := Case{WKind: "full", Cons: Consumer{Kind: "aligned-with-close", PauseAt: -1}, Procs: procs, Life: &spec}
+	c.Progress(fmt.Sprintf("lifetime batch seed=%d pairs=%d n=%d", spec.Seed, spec.Pairs, spec.N), true)
+	out := runLife(spec)
+	reportLife(c, out, cs)
+	if out.inconclusive != "" {
+		c.Inconclusive(out.inconclusive)
+	}
+	if out.res.key != "" {
+		c.Violate(out.res.key, cs, out.res.exp, out.res.obs)
+	}
+	// distinct lifetime shapes: regenerated from the seeds (nothing is recorded while the pairs run)
+	per := out.cnt.lifetimes.Load() / int64(spec.Pairs)
+	for i := 0; i < spec.Pairs; i++ {
+		x := uint64(spec.Seed)*0x9e3779b97f4a7c15 + uint64(i)*0x632be59bd9b4e019 + 1
+		for j := int64(0); j < per; j++ {
+			p := nextLife(&x)
+			c.Distinct(uint64(p.Writes) | uint64(p.S1)<<2 | uint64(p.S2)<<7 | b2u(p.Str)<<12 | b2u(p.SW)<<13 | b2u(p.Early)<<14 | b2u(p.Lazy)<<15 |
+				uint64(p.MaxLag)<<16 | uint64(p.WLag)<<29 | uint64(p.CLag)<<42 | b2u(p.CRel)<<55 | 1<<63)
+		}
+	}
+	c.Sample(map[string]any{"lifetime_batch": spec, "gomaxprocs": procs, "lifetimes_completed": out.cnt.lifetimes.Load()})
+	c.SetAdd("gomaxprocs", strconv.Itoa(procs))
+}
+
+func b2u(b bool) uint64 {
+	if b {
+		return 1
+	}
+	return 0
+}
+
+func reportLife(c *drv.Ctx, out lifeOutcome, cs Case) {
+	n := out.cnt
+	c.Eval(n.lifetimes.Load())
+	c.Add("lifetimes_checked", n.lifetimes.Load())
+	c.Add("life_values_received", n.values.Load())
+	c.Add("life_received_1_value", n.oneValue.Load())
+	c.Add("life_received_2_values", n.twoValues.Load())
+	c.Add("life_received_3plus_values", n.threePlus.Load())
+	c.Add("life_first_receive_started_before_Close_entered", n.recvBeforeClose.Load())
+	c.Add("life_first_receive_started_after_Close_entered", n.recvAfterClose.Load())
+	c.Add("life_barrier_before_last_write", n.early.Load())
+	c.Add("life_lazy_status", n.lazy.Load())
+	c.Add("life_WriteString_on_StringWriter", n.strSW.Load())
+	c.Add("size_checks", n.sizeChecks.Load())
+	c.Add("watchdog_snapshots", out.snapshots)
+}
+
 // Finish: a run that did not observe the interleavings it needs is inconclusive.
 func (mon) Finish(prop, tier string, m *drv.Merged) (inc []string) {
 	if m.Evaluations == 0 {
 		return nil
 	}
-	if len(m.Sets["pairs(writer kind × consumer kind)"]) < 60 && m.Evaluations >= 1500 {
+	if len(m.Sets["pairs(writer kind × consumer kind)"]) < 60 && m.Sum["scenarios_checked"] >= 1500 {
 		inc = append(inc, fmt.Sprintf("only %d of 60 (writer kind × consumer kind) pairs exercised", len(m.Sets["pairs(writer kind × consumer kind)"])))
 	}
-	if m.Evaluations < 1500 {
-		return inc // partial run (-only)
+	if m.Sum["scenarios_checked"] < 1500 {
+		return inc // partial run (-only) or a run cut short by violations
 	}
 	for _, k := range []string{"eager", "slow", "late", "stopresume"} {
 		if m.Sum["scen_"+k+"_with_intermediate_value"] == 0 {
@@ -1156,7 +1250,8 @@ func (mon) Finish(prop, tier string, m *drv.Merged) (inc []string) {
 	}
 	for _, k := range []string{"sends_skipped(no receiver ready)", "scen_whole_op_list_without_consumer", "scen_absent",
 		"wrapped_calls_shortErr", "wrapped_calls_shortNil", "wrapped_calls_fail0", "wrapped_calls_failN", "ops_WriteString_on_StringWriter", "ops_WriteString_on_plain_Writer",
-		"scen_stopresume_received_before_and_after", "scen_long", "long_intermediate_values_received"} {
+		"scen_stopresume_received_before_and_after", "scen_long", "long_intermediate_values_received",
+		"lifetimes_checked", "life_first_receive_started_before_Close_entered", "life_first_receive_started_after_Close_entered"} {
 		if m.Sum[k] == 0 {
 			inc = append(inc, "observed nothing of: "+k)
 		}
@@ -1166,6 +1261,24 @@ func (mon) Finish(prop, tier string, m *drv.Merged) (inc []string) {
 
 func (mn mon) Replay(v drv.Violation, c *drv.Ctx) {
 	var cs Case
+	if err := json.Unmarshal(v.Case, &cs); err == nil && cs.Life != nil {
+		if cs.Procs > 0 {
+			runtime.GOMAXPROCS(cs.Procs)
+		}
+		for i := 0; i < 5; i++ {
+			out := runLife(*cs.Life)
+			reportLife(c, out, cs)
+			if out.inconclusive != "" {
+				c.Inconclusive(out.inconclusive)
+				return
+			}
+			if out.res.key != "" {
+				c.Violate(out.res.key, cs, out.res.exp, out.res.obs)
+				return
+			}
+		}
+		return
+	}
 	if err := json.Unmarshal(v.Case, &cs); err != nil || (len(cs.Ops) == 0 && cs.LongN == 0 && cs.Cons.Kind == "") {
 		c.Inconclusive("replay: not a scenario (race / crash violations are replayed by re-running the check with the same seed)")
 		return
